@@ -202,6 +202,10 @@ func errorOperand(ret *ssa.Return) ssa.Value {
 	}
 	last := ret.Results[len(ret.Results)-1]
 	if last.Type().String() == "error" {
+		// functions with defers return through result cells: resolve to the value stored in this return's block
+		if vs := retValAt(ret, len(ret.Results)-1); len(vs) == 1 {
+			return vs[0]
+		}
 		return last
 	}
 	return nil
